@@ -19,12 +19,13 @@ CONSTANTS Mode, Vocab, MaxWeight
 Absent == "-absent-"
 Big    == Vocab = "big"
 
-FileWords(n) ==
+DefWords(n) == IF HasDefWord(n) THEN {DefWord(n)} ELSE {}       \* the option's own default, set explicitly
+FileWords(n) == DefWords(n) \cup
     CASE TypeOf(n) = "bool"  -> IF Big THEN {"1", "true", "On", "no", "FALSE", "0", "maybe"} ELSE {"yes", "off"}
       [] TypeOf(n) = "int"   -> IF Big THEN {"3", "45", "0", "abc"} ELSE {"3", "45"}
       [] TypeOf(n) = "float" -> IF Big THEN {"7.5", "45", "0", "abc"} ELSE {"7.5", "45"}
       [] OTHER               -> IF Big THEN {"alpha", "True", "0", ""} ELSE {"alpha", "True"}
-EnvWords(n) ==
+EnvWords(n) == DefWords(n) \cup
     CASE TypeOf(n) = "bool"  -> IF Big THEN {"true", "TRUE", "False", "fAlSe", "yes", "0"} ELSE {"True", "false"}
       [] TypeOf(n) = "int"   -> IF Big THEN {"7", "300", "true", "abc"} ELSE {"7", "300"}
       [] TypeOf(n) = "float" -> IF Big THEN {"0.25", "3", "False", "abc"} ELSE {"0.25", "3"}
@@ -32,7 +33,8 @@ EnvWords(n) ==
 CliForms(n) ==
     CASE CliKind(n) = "none"      -> {}
       [] CliKind(n) = "store"     -> {[has |-> TRUE, arg |-> "gamma"]} \cup (IF Big THEN {[has |-> TRUE, arg |-> "true"]} ELSE {})
-      [] CliKind(n) = "store_int" -> {[has |-> TRUE, arg |-> "7"]}
+                                     \cup {[has |-> TRUE, arg |-> w] : w \in DefWords(n)}
+      [] CliKind(n) = "store_int" -> {[has |-> TRUE, arg |-> "7"]} \cup {[has |-> TRUE, arg |-> w] : w \in DefWords(n)}
       [] CliKind(n) = "optarg"    -> {[has |-> FALSE, arg |-> ""], [has |-> TRUE, arg |-> "delta"]}
       [] OTHER                    -> {[has |-> FALSE, arg |-> ""]}
 NoCli == [has |-> FALSE, arg |-> Absent]
